@@ -205,13 +205,20 @@ func (x *runner) history(via string, d infoD, bufs []bufD, steps []stepD, emit b
 			var viaHash string
 			if p := hx.Catch(func() { viaHash = x.build(via, cloneInfo(d)).Hash(h2) }); p != "" {
 				x.res.Fail(panicKey(d), "Info.Hash panics: "+p, c)
-			} else if string(out) != viaHash || string(out) != want {
+			} else if string(out) != viaHash {
 				key := "C20/appendhash/empty-dst"
 				if cls != "nil-or-zero-capacity" {
 					key += ":" + cls
 				}
 				x.res.Fail(key, fmt.Sprintf("AppendHash with an empty destination of capacity %d (call %d of the history, digest of %d bytes, base64 of %d) returns %q; Hash returns %q; base64 of the digest of the verification string is %q",
 					cap(dst), k+1, len(digest), encLen, out, viaHash, want), c)
+			} else if string(out) != want {
+				// Hash and AppendHash agree with each other but not with the reference
+				key := "C20/appendhash/not-base64-of-digest"
+				if st.Algo != "" {
+					key = "C20/hash/algo" // the library's handle for the function computes something else
+				}
+				x.res.Fail(key, fmt.Sprintf("Hash and AppendHash(empty destination) return %q but the base64 of the %s digest of the recorded string is %q", out, st.Algo, want), c)
 			}
 		}
 		known = append(known, out)
